@@ -508,6 +508,17 @@ def mode_params_rule(ctx, rule):
                 okc = True
     ctx.ob(rule, 'writer.convert:lossy-float-to-integer-cast-refused', okc,
            'astype(int) turns NaN into the smallest integer and cuts fractions off; reached when a float frame is appended to an integer column', wr.loc(f))
+    # wider integers cast to a narrower integer column keep their low bits only: the cast result is compared back
+    okn = False
+    for st in walk_no_nested(f):
+        if isinstance(st, ast.If) and 'itemsize' in norm(st.test) and "dtype.kind in 'iu'" in norm(st.test) \
+                and any(isinstance(r, ast.Raise) for r in ast.walk(st)):
+            inner = [x for x in ast.walk(st) if isinstance(x, ast.If) and x is not st and any(isinstance(r, ast.Raise) for r in x.body)]
+            tests = [norm(x.test) for x in inner] + [norm(st.test)]
+            okn = okn or any(('out != data.values' in t or 'data.values != out' in t) and '.any()' in t for t in tests)
+    ctx.ob(rule, 'writer.convert:narrowing-integer-cast-refused-when-it-changes-a-value', okn,
+           'astype to a narrower integer type keeps the low bits (2**40 + 5 -> 5); reached when int64 rows are appended to an '
+           'INT32 column', wr.loc(f))
     subs = [x for x in walk_no_nested(f) if isinstance(x, ast.Subscript) and norm(x.value) == 'revmap']
     tdef = [st for st in f.body if isinstance(st, ast.Assign) and norm(st.targets[0]) == 'type']
     ok_def = len(tdef) == 1 and norm(tdef[0].value) == 'se.type'
